@@ -331,7 +331,7 @@ func (wf *Workflow) runProcs(procs map[string]WorkflowProcess) {
 }
 
 func (wf *Workflow) readyToRun(procs map[string]WorkflowProcess) bool {
-	if len(procs) == 0 {
+	if len(procs) == 0 && wf.driver == WorkflowProcess(wf.sink) {
 		Error.Println(wf.name + ": The workflow is empty. Did you forget to add the processes to it?")
 		return false
 	}
@@ -401,11 +401,12 @@ func (wf *Workflow) reconnectDeadEndConnections(procs map[string]WorkflowProcess
 		}
 	}
 
-	if foundNewDriverProc && len(procs) > 1 { // Allow for a workflow with a single process
-		// A process can't both be the driver and be included in the main procs
-		// map, so if we have an alerative driver, it should not be in the main
-		// procs map
-		delete(wf.procs, wf.driver.Name())
+	if foundNewDriverProc {
+		// A process can't both be the driver and be included in the set of
+		// processes to start in go-routines, so if we have an alternative
+		// driver, it should not be in that set (which is wf.procs only when
+		// running the full workflow)
+		delete(procs, wf.driver.Name())
 	}
 }
 
